@@ -269,18 +269,20 @@ def check_order(rng, scratch, force=None):
     from twosigma.memento import Environment, ConfigurationRepository, FunctionCluster
     from twosigma.memento.storage_filesystem import FilesystemStorageBackend
     from twosigma.memento.runner_null import NullRunnerBackend
-    names = ["ca", "cb", "cc"]
+    names = ["ca", "cb", "cc", "default"]        # (a repository may define a cluster under the key "default" too)
     nrepo = rng.randint(1, 4)
     samename = rng.random() < 0.4
     if force:
         nrepo, samename = force[0], force[1]
-    rname = lambda ri: "r%d" % (ri % 2 if samename else ri)        # repositories may share a name: priority is by position only
+    pool = ["zeta", "alpha", "mid", "beta"]
+    rng.shuffle(pool)                                               # priority order is not the alphabetical order of the names
+    rname = lambda ri: pool[ri % 2 if samename else ri]             # repositories may share a name: priority is by position only
     repos, roots, ident, spec = [], {}, {}, []
     cid = 0
     for ri in range(nrepo):
         clusters = {}
         rs = []
-        for nm in rng.sample(names, rng.randint(0, 3)):
+        for nm in rng.sample(names, rng.randint(0, 4)):
             cid += 1
             lab = "R%d" % cid
             roots[lab] = os.path.join(scratch, lab)
@@ -430,7 +432,7 @@ def main(chk, replay=None):
                     p = chk.violation({"what": "configuration: %s (%s)" % (f["clause"], json.dumps({k: v for k, v in f.items() if k in ("option", "source", "options")})),
                                        "class": {"clause": f["clause"]}, "case": case, "observed": f})
                     reported += bool(p)
-        forced = [(3, True, "prepend"), (3, True, "append"), (4, True, "prepend"), (4, True, "append")]
+        forced = [(3, True, "prepend"), (3, True, "append"), (4, True, "prepend"), (4, True, "append"), (3, False, "dump"), (4, False, "dump")]
         for i in range((12 if quick else 150) + 2 * len(forced)):
             scratch = tempfile.mkdtemp(prefix="c18o_", dir=chk.tmpdir())
             try:
